@@ -106,6 +106,29 @@ def check_reciprocity(sc, thetas):
     return None
 
 
+def check_accessors(sc, thetas):
+    """the full matrix returned by sigma() / sigma_dB() and the per-polarisation accessors agree at every incidence angle (three angles:
+    as many as polarisation components), and a radar transmitting a single polarisation sees what the fully polarimetric run gives"""
+    from smrt import make_model, sensor_list
+    r = run_active(sc, thetas)
+    full = r.sigma()
+    for pi_, p_, fn in (("V", "V", r.sigmaVV), ("H", "H", r.sigmaHH), ("H", "V", r.sigmaHV), ("V", "H", r.sigmaVH)):
+        a = np.asarray(full.sel(polarization_inc=pi_, polarization=p_).values).ravel()
+        b = np.asarray(fn()).ravel()
+        if a.shape != b.shape or not np.allclose(a, b, rtol=1e-12, atol=0):
+            return ("accessors", [a.tolist(), b.tolist()], f"sigma().sel({pi_}{p_}) = sigma{pi_}{p_}() at {thetas}")
+    sp, atm = scenes.build(sc)
+    m = make_model(sc["emmodel"], "dort", rtsolver_options=dict(n_max_stream=sc["nmax"], m_max=2))
+    for tx in ("V", "H"):
+        one = m.run(sensor_list.active(sc["frequency"], list(thetas), polarization_inc=[tx], polarization=["V", "H"]), sp)
+        for rx in ("V", "H"):
+            a = np.asarray(one.sigma(polarization_inc=tx, polarization=rx)).ravel()
+            b = np.asarray(r.sigma(polarization_inc=tx, polarization=rx)).ravel()
+            if a.shape != b.shape or not np.allclose(a, b, rtol=1e-9, atol=1e-300):
+                return ("single-transmit", [a.tolist(), b.tolist()], f"transmit {tx} only, receive {rx}: same as the polarimetric run")
+    return None
+
+
 def first_order(sc, th):
     """T_p^2 p_pp(backward) mu0^2 / (n^2 mu1) (1 - exp(-2 ke d / mu1)) / (2 ke) from the theory's own phase function"""
     from smrt import sensor_list
@@ -190,6 +213,12 @@ def oracle(ctx, hints, effort):
             if r:
                 key = f"{r[0]}:{em}"
                 findings.setdefault(key, Finding(key, r[0], {"kind": "reciprocity", "scene": sc, "thetas": thetas}, r[1], r[2]))
+            if it < 2 or effort != "routine":
+                evals += 3
+                r = check_accessors(sc, thetas)
+                if r:
+                    key = f"{r[0]}:{em}"
+                    findings.setdefault(key, Finding(key, r[0], {"kind": "accessors", "scene": sc, "thetas": thetas}, r[1], r[2]))
         except AssertionError:
             pass
         except Exception as e:  # noqa
@@ -222,7 +251,8 @@ def oracle(ctx, hints, effort):
 
 def replay(inp, rp=None):
     try:
-        r = check_reciprocity(inp["scene"], inp["thetas"]) if inp["kind"] == "reciprocity" else check_first_order(inp["scene"])
+        r = (check_reciprocity(inp["scene"], inp["thetas"]) if inp["kind"] == "reciprocity" else
+             check_accessors(inp["scene"], inp["thetas"]) if inp["kind"] == "accessors" else check_first_order(inp["scene"]))
     except Exception as e:  # noqa
         from smrt.core.error import SMRTError
         if isinstance(e, (SMRTError, AssertionError)):
